@@ -204,14 +204,19 @@ def lp_state_readers(repo):
     """Methods of Model that (transitively) read decision-variable values."""
     direct = set()
     calls = {}
-    for name, f in repo.classes['Model'].items():
+    for cname in ('Model', 'Pair'):
+      for name, f in repo.classes.get(cname, {}).items():
+        if name in ('pulp_setup', '__init__'):
+            continue
         cs = set()
         for n in ast.walk(f.node):
             if isinstance(n, ast.Attribute) and n.attr in ('varValue', 'lp_var'):
                 direct.add(name)
-            if isinstance(n, ast.Call) and isinstance(n.func, ast.Attribute) and isinstance(n.func.value, ast.Name) and n.func.value.id == 'self':
+            if isinstance(n, ast.Call) and isinstance(n.func, ast.Attribute) and (cname == 'Pair' or (isinstance(n.func.value, ast.Name) and n.func.value.id == 'self')):
                 cs.add(n.func.attr)
-        calls[name] = cs
+            elif isinstance(n, ast.Call) and isinstance(n.func, ast.Attribute) and n.func.attr in repo.classes.get('Pair', {}):
+                cs.add(n.func.attr)             # pair.is_matched(): a reader defined on the pair itself
+        calls[name] = cs | calls.get(name, set())
     readers = set(direct)
     changed = True
     while changed:
@@ -356,6 +361,7 @@ def check_output_gates(rep, repo):
             tl_comb.append(t)
     # sensitive nodes: read LP variable values directly or through a local derived from such a read
     readers = lp_state_readers(repo)
+    pair_readers = readers & set(repo.classes.get('Pair', {}))
     # the text being assembled (whatever is returned) collects gated and ungated pieces alike: it carries no taint itself
     returned = {x.id for r_ in ast.walk(f.node) if isinstance(r_, ast.Return) and r_.value is not None for x in ast.walk(r_.value) if isinstance(x, ast.Name)}
     accumulated = {n_.target.id for n_ in ast.walk(f.node) if isinstance(n_, ast.AugAssign) and isinstance(n_.target, ast.Name)} \
@@ -374,7 +380,8 @@ def check_output_gates(rep, repo):
             parts = [n.ast] if n.kind != 'loop' else [n.ast.iter if isinstance(n.ast, ast.For) else n.ast.test]
             for p in parts:
                 for x in ast.walk(p):
-                    if isinstance(x, ast.Call) and isinstance(x.func, ast.Attribute) and isinstance(x.func.value, ast.Name) and x.func.value.id == 'self' and x.func.attr in readers:
+                    if isinstance(x, ast.Call) and isinstance(x.func, ast.Attribute) and x.func.attr in readers \
+                            and ((isinstance(x.func.value, ast.Name) and x.func.value.id == 'self') or x.func.attr in pair_readers):
                         hit = True
                     if isinstance(x, ast.Attribute) and x.attr in ('varValue', 'lp_var'):
                         hit = True
@@ -395,7 +402,8 @@ def check_output_gates(rep, repo):
         parts = [n.ast] if n.kind != 'loop' else [n.ast.iter if isinstance(n.ast, ast.For) else n.ast.test]
         for p_ in parts:
             for x in ast.walk(p_):
-                if isinstance(x, ast.Call) and isinstance(x.func, ast.Attribute) and isinstance(x.func.value, ast.Name) and x.func.value.id == 'self' and x.func.attr in readers:
+                if isinstance(x, ast.Call) and isinstance(x.func, ast.Attribute) and x.func.attr in readers \
+                        and ((isinstance(x.func.value, ast.Name) and x.func.value.id == 'self') or x.func.attr in pair_readers):
                     reads += 1
                 elif isinstance(x, ast.Attribute) and x.attr == 'varValue':
                     reads += 1
